@@ -848,40 +848,73 @@ def search(ctx, np, util, config, sf_actual, icases=()):
         def tell(self):
             return self._raw.tell()
 
-    def streams():
-        yield "io.BytesIO", io.BytesIO(blob.getvalue())
-        yield "io.BufferedReader", io.BufferedReader(io.BytesIO(blob.getvalue()))
+    def streams(payload):
+        yield "io.BytesIO", io.BytesIO(payload)
+        yield "io.BufferedReader", io.BufferedReader(io.BytesIO(payload))
         t = tempfile.NamedTemporaryFile(dir=FILES)
-        t.write(blob.getvalue())
+        t.write(payload)
         t.flush()
         t.seek(0)
         yield "tempfile.NamedTemporaryFile", t
         sp = tempfile.SpooledTemporaryFile(dir=FILES)
-        sp.write(blob.getvalue())
+        sp.write(payload)
         sp.seek(0)
         yield "tempfile.SpooledTemporaryFile", sp
-        yield "delegating reader", Delegating(io.BytesIO(blob.getvalue()))
+        yield "delegating reader", Delegating(io.BytesIO(payload))
+        # streams whose .name is not a string: an anonymous temporary file / a wrapped descriptor (name = the fd)
+        tf = tempfile.TemporaryFile(dir=FILES)
+        tf.write(payload)
+        tf.seek(0)
+        yield "tempfile.TemporaryFile", tf
+        tf2 = tempfile.TemporaryFile(dir=FILES)
+        tf2.write(payload)
+        tf2.seek(0)
+        yield "os.fdopen", os.fdopen(os.dup(tf2.fileno()), "rb")
+        tf2.close()
 
-    for fa in (None, "npy"):
-        for sname, st in streams():
-            ctx.count("search:stream-kinds")
-            try:
-                got = util.read_signal(st, force_as=fa)
-                if fa is None:
-                    bad.append(("stream_force_as", dict(stream=sname, force_as=None, got="no exception")))
-                elif not same(got, a):
-                    bad.append(("roundtrip", dict(container="npy", access=sname, force_as=fa, got=str(got)[:80], want=str(a))))
-            except ValueError as e:
-                if fa is not None:
-                    bad.append(("roundtrip-raised", dict(container="npy", access=sname, force_as=fa, error="ValueError: " + str(e)[:100])))
-            except Exception as e:  # noqa: BLE001
-                bad.append(("stream_force_as" if fa is None else "roundtrip-raised",
-                            dict(stream=sname, force_as=fa, got=type(e).__name__, error=str(e)[:100])))
-            finally:
+    # the same array in several containers (written by the container's own writer, SPHERE header by hand)
+    pay = {"npy": (blob.getvalue(), a)}
+    a16 = (np.arange(40, dtype=np.int16) * 257 - 5000).reshape(20, 2)
+    wb = io.BytesIO()
+    with wave.open(wb, "wb") as wf:
+        wf.setnchannels(2)
+        wf.setsampwidth(2)
+        wf.setframerate(8000)
+        wf.writeframes(a16.tobytes("C"))
+    pay["wav"] = (wb.getvalue(), a16)
+    hdr = ("NIST_1A\n   1024\nchannel_count -i 2\nsample_count -i 20\nsample_rate -i 8000\nsample_n_bytes -i 2\n"
+           "sample_byte_format -s2 01\nsample_coding -s3 pcm\nend_head\n").encode()
+    pay["sph"] = (hdr + b" " * (1024 - len(hdr)) + a16.astype("<i2").tobytes("C"), a16)
+    a8 = np.array([0, 1, 127, 128, 200, 255, 64, 129], dtype=np.uint8)
+    hdr8 = ("NIST_1A\n   1024\nchannel_count -i 1\nsample_count -i 8\nsample_rate -i 8000\nsample_n_bytes -i 1\n"
+            "sample_byte_format -s1 1\nsample_coding -s3 pcm\nend_head\n").encode()
+    pay["sph8"] = (hdr8 + b" " * (1024 - len(hdr8)) + a8.tobytes(), a8)
+    tb = io.BytesIO()
+    torch.save(torch.from_numpy(a16.copy()), tb)
+    pay["pt"] = (tb.getvalue(), a16)
+    for cont, fa_ok in (("npy", "npy"), ("wav", "wav"), ("sph", "sph"), ("sph8", "sph"), ("pt", "pt")):
+        payload, want = pay[cont]
+        for fa in (None, fa_ok):
+            for sname, st in streams(payload):
+                ctx.count("search:stream-kinds")
                 try:
-                    st.close()
-                except Exception:  # noqa: BLE001
-                    pass
+                    got = util.read_signal(st, force_as=fa)
+                    if fa is None:
+                        bad.append(("stream_force_as", dict(stream=sname, container=cont, force_as=None, got="no exception")))
+                    elif not same(got, want):
+                        bad.append(("roundtrip", dict(container=cont, access=sname, force_as=fa, got=str(got)[:80], got_dtype=str(getattr(got, "dtype", None)),
+                                                      want=str(want)[:80], want_dtype=str(want.dtype))))
+                except ValueError as e:
+                    if fa is not None:
+                        bad.append(("roundtrip-raised", dict(container=cont, access=sname, force_as=fa, error="ValueError: " + str(e)[:100])))
+                except Exception as e:  # noqa: BLE001
+                    bad.append(("stream_force_as" if fa is None else "roundtrip-raised",
+                                dict(stream=sname, container=cont, force_as=fa, got=type(e).__name__, error=str(e)[:100])))
+                finally:
+                    try:
+                        st.close()
+                    except Exception:  # noqa: BLE001
+                        pass
     for fa in ["foo", "", "WAV", "numpy", "mp3", "Npy"]:
         ctx.count("search:errors")
         try:
